@@ -15,9 +15,17 @@ import (
 // that applying a membership change makes.  VerifStubPeers starts the transport (maps, probers and
 // round trippers; no listener, no goroutine) and registers a do-nothing peer for every given id, so
 // that Send is a no-op, AddPeer of a registered id returns early and RemovePeer runs its real code.
-type verifPeer struct{}
+type verifPeer struct{ t *Transport }
 
-func (verifPeer) send(m raftpb.Message)                 {}
+// VerifSendHook, when set, sees every message at the moment the Ready handler hands it to the
+// transport (i.e. the moment it may leave the node), with the sending node's id.
+var VerifSendHook func(from types.ID, m raftpb.Message)
+
+func (p verifPeer) send(m raftpb.Message) {
+	if VerifSendHook != nil && p.t != nil {
+		VerifSendHook(p.t.ID, m)
+	}
+}
 func (verifPeer) sendSnap(m snap.Message)               { m.CloseWithError(errMemberNotFound) }
 func (verifPeer) update(urls types.URLs)                {}
 func (verifPeer) attachOutgoingConn(conn *outgoingConn) {}
@@ -31,7 +39,7 @@ func (t *Transport) VerifStubPeers(ids ...types.ID) error {
 	t.mu.Lock()
 	defer t.mu.Unlock()
 	for _, id := range ids {
-		t.peers[id] = verifPeer{}
+		t.peers[id] = verifPeer{t: t}
 	}
 	return nil
 }
